@@ -7,6 +7,9 @@ from registry import CHECKS, METAS as META
 from manifest_meta import PENDING, HOOK_COMMITS
 
 ALL = ["C%02d" % i for i in range(1, 21)]
+# only checks listed in lib/ready.txt (run to completion in both tiers on the unchanged tree) are claimed
+READY = set(open(os.path.join(VERIF, "lib", "ready.txt")).read().split())
+CHECKS = {k: v for k, v in CHECKS.items() if k in READY}
 checks = []
 for pid in ALL:
     if pid not in CHECKS: continue
